@@ -39,6 +39,33 @@ def run(tier, seed):
         terms, metas = [], []
         total = 0
         stats = {"batches": 0, "with_duplicates": 0, "with_failures": 0, "with_prememoized": 0, "raise_first": 0, "ctx": 0, "map_over_range": 0}
+        # several DIFFERENT elements memoized beforehand, on every kind of backend (memoized failures among them): each slot
+        # gets its own element's outcome
+        from . import fnlib
+        stats["prememoized_mixes"] = 0
+        for ti, kind0 in enumerate(["mem", "fs", "fs_cache"] * (1 if tier == "quick" else 6)):
+            st0 = R.make_storage(kind0, scratch, "pm%d" % ti)
+            fnlib.set_env(m, scratch, {"fc": (st0, None)})
+            base = 700000 + 100 * ti
+            leaf = [{"id": base + k} for k in range(4)]
+            leaf[2]["raise"] = {"cls": "ValueError", "msg": "%d" % (base + 2)}
+            pre0 = rng.sample(range(4), rng.randint(2, 4))
+            for k in pre0:
+                try:
+                    fnmod.n1(leaf[k])
+                except ValueError:
+                    pass
+            order = [rng.randrange(4) for _ in range(rng.randint(3, 6))]
+            res = fnmod.n1.call_batch([{"spec": leaf[k]} for k in order], raise_first_exception=False)
+            got = [norm_result(x) for x in res]
+            want = [("exc", "%d" % (base + k)) if k == 2 else ("val", base + k) for k in order]
+            want = [norm_result(ValueError(w[1])) if w[0] == "exc" else norm_result(w[1]) for w in want]
+            total += 1
+            stats["prememoized_mixes"] += 1
+            if got != want:
+                rep.violation("C15:batch-differs-from-elementwise", "call_batch returned %r, individual calls return %r" % (got, want),
+                              {"backend": kind0, "elements": [leaf[k]["id"] for k in order], "pre_memoized": [leaf[k]["id"] for k in pre0], "batch_result": got, "elementwise": want})
+            shutil.rmtree(os.path.join(scratch, "store-pm%d" % ti), ignore_errors=True)
         for pi in range(nprog):
             prog = R.gen_program(rng, rng.randint(3, 7), p_batch=0.7)
             # (a) body-level batches against the model
